@@ -158,6 +158,9 @@ impl std::fmt::Debug for Kw { fn fmt(&self, f: &mut std::fmt::Formatter) -> std:
 impl std::fmt::Display for Kw { fn fmt(&self, f: &mut std::fmt::Formatter) -> std::fmt::Result { match self { Kw::Konst => write!(f, "K"), Kw::Vol => write!(f, "V"), Kw::Other(n) => { write!(f, "<")?; write!(f, "{}", n * 2)?; f.write_str(">") } } } }
 fn e09_user_fmt(x: A) -> String { let k = if x.0 > 1 { Kw::Konst } else if x.0 < 0 { Kw::Vol } else { Kw::Other(x.1) }; let mut s = String::new(); use std::fmt::Write; write!(s, "{:?} ", k).unwrap(); write!(s, " {k}|").unwrap(); s + &format!("{:?}/{}", k, k) }
 
+fn bump(s: &mut String, n: &mut i64, flag: &mut bool) { s.push_str("ab"); s.push('c'); *n += 2; *n *= 3; *flag = !*flag; if *n > 10 { s.insert(0, '>'); } }
+fn e10_mut_ref_locals(x: A) -> (String, i64, bool, usize) { let mut s = String::from(x.2); let mut n = x.0; let mut fl = x.1 > 0; bump(&mut s, &mut n, &mut fl); bump(&mut s, &mut n, &mut fl); let l = s.len(); (s, n, fl, l) }
+
 fn main() {
     let avals = [-7i64, -1, 0, 1, 2, 5, 64];
     let bvals = [-3i64, 0, 1, 2];
@@ -179,5 +182,5 @@ fn main() {
          d01_methods, d02_trait_dispatch, d03_dyn, d04_recursion, d05_iter_mut, d06_while_let, d07_sort_cmp, d08_binding_modes, d09_at_patterns, d10_str_cmp, d11_char_ops, d12_write,
          d13_option_mut, d14_shadow_blocks, d15_tuple_struct, d16_array, d17_nested_closures, d18_fold_tuple, d19_early_return_loop, d20_string_api, d21_int_parse_fmt, d22_slices_eq,
          d23_result_chain, d24_vec_of_vec, d25_if_let_chain, d26_wrapping_mix, d27_checked_chain, d28_extend_concat, d29_bool_short_circuit, d30_default_struct,
-         e01_iter_next_then_for, e02_iter_next_twice, e03_try_for_each, e04_iter_by_mut_ref, e05_into_iter_next, e06_chars_next, e07_range_next, e08_peekable, e09_user_fmt);
+         e01_iter_next_then_for, e02_iter_next_twice, e03_try_for_each, e04_iter_by_mut_ref, e05_into_iter_next, e06_chars_next, e07_range_next, e08_peekable, e09_user_fmt, e10_mut_ref_locals);
 }
